@@ -169,6 +169,19 @@ def wrath_size_boundaries(rng, Case):
         out.append(Case("hdr w s %s %s" % (K.hex(), " ".join(ops)), "wrath-server-size-boundaries", pyhdr.expected_line("w", "s", K, ops), dict(n=len(ops), nb=3)))
     return out
 
+def big_call_cases(rng, Case, exps):
+    """ONE call longer than 2^16 bytes in each direction (the lengths of a call and the position in the key are machine integers of some
+    width), with ordinary traffic before and after it on the same object"""
+    out = []
+    for exp, role in exps:
+        K = rbytes(rng, 40)
+        pre = rng.randint(1, 39)
+        ops = ["e:" + hx(rbytes(rng, pre)), "d:" + hx(rbytes(rng, pre + 1)), "pr",
+               "e:" + hx(rbytes(rng, 65536 + rng.randint(0, 40))), "pr", "d:" + hx(rbytes(rng, 65536 + rng.randint(0, 40))), "pr",
+               "e:" + hx(rbytes(rng, 21)), "d:" + hx(rbytes(rng, 41)), "pr"]
+        out.append(Case("hdr %s %s %s %s" % (exp, role, K.hex(), " ".join(ops)), "one-call-longer-than-2^16-%s%s" % (exp, role), pyhdr.expected_line(exp, role, K, ops), dict(n=len(ops), nb=3)))
+    return out
+
 def cases(rng, Case, exps, n, maxops, kind_prefix="mixed", faults=0.08, long_every=5, special_key=None):
     """n sessions per (exp, role); every `long_every`-th one is long (crosses 256 bytes per direction)"""
     out = []
